@@ -5,14 +5,16 @@
 
    Full statement aimed at (C19_memo_safe):
      forall g in the exact class  { no node sets rule-level ws/skipws, no eolterm repetition, no
-     memoizable node shared between the comment model and the main model },
+     memoizable node shared between the comment model and the main model, comment model absent
+     or a single terminal },
      forall cfg orc fuel input, the un-memoized run does not abort ->
        run g cfg orc true fuel input = run g cfg orc false fuel input.
    Proved below: the same statement for the sub-class ctx_constant, which additionally excludes
-   grammars with a Comment rule and grammars with unordered groups (proof-technical exclusions:
-   comment_positions would need its own validity invariant; the unordered-group loops are proved
-   for the A0 layer only).  Each of the three semantic exclusions is shown necessary by a refuted
-   theorem with a vm_compute witness that replays on the implementation (corpus/C19). *)
+   grammars whose Comment rule is a single terminal and grammars with unordered groups
+   (proof-technical exclusions: comment_positions would need its own validity invariant; the
+   unordered-group loops are proved for the A0 layer only).  Each of the four semantic exclusions
+   is shown necessary by a refuted theorem with a vm_compute witness that replays on the
+   implementation (corpus/C19). *)
 From TxV Require Import Core.Base Model.PegSyntax Model.Peg Proofs.PegProofs Proofs.PegMemo.
 
 (* For every context-constant grammar, every parser configuration, every terminal oracle, every
